@@ -1263,7 +1263,9 @@ func (a *Act) applyContract(st *State, callee *ssa.Function, fc *FuncContract, a
 		o := &Obligation{Name: fmt.Sprintf("%s#%d", base, tr.oblCount[base]), Kind: "pre", Fn: fname, Pos: loc, Src: c.text, Guard: st.reach, Goal: g}
 		tr.obls = append(tr.obls, o)
 	}
-	if rc := tr.rootAct.contract; rc != nil && len(rc.decreases) > 0 && len(fc.decreases) > 0 && a.parent == nil {
+	// (measures are compared within one package: a recursion cycle through contracts of another
+	// package would need a common measure, and none of the functions under contract has one)
+	if rc := tr.rootAct.contract; rc != nil && len(rc.decreases) > 0 && len(fc.decreases) > 0 && a.parent == nil && rc.pkg == fc.pkg {
 		var callee, caller []Term
 		for _, d := range fc.decreases {
 			callee = append(callee, e.eval(d.expr).t)
